@@ -398,7 +398,8 @@ def finish(mod, pid, tier, base_seed, cfg, total, wall, n_enum, stopped_early, q
     if harness:
         for h in harness[:3]:
             print(f"HARNESS-ERROR property={pid} index={h.get('index')} seed={h.get('seed')}: {h['message'][:1500]}")
-        return 2
+        # a reproduced violation is reported as such even if other runs hit a harness error
+        return 1 if new_violations else 2
     return 1 if new_violations else 0
 
 
